@@ -93,7 +93,10 @@ class C08:
                         self.maybe(rng, t, "os", "linux")
                         self.maybe(rng, t, "arch", "amd64")
                         self.maybe(rng, t, "variant", "v8")
-                        self.maybe(rng, t, "distros", [{"name": "ubuntu", "version": "24.04"}])
+                        self.maybe(rng, t, "distros", rng.choice([
+                            [{"name": "ubuntu", "version": "24.04"}],
+                            [{"name": "ubuntu", "version": "22.04"}, {"name": "ubuntu", "version": "24.04"}],
+                            [{"name": "ubuntu", "version": "24.04"}, {"name": "debian", "version": "12"}, {"name": "ubuntu", "version": "24.04"}]]))
                         ts.append(t)
                     d["targets"] = ts
             else:
